@@ -16,7 +16,12 @@ CERT = {
 
 
 def truth_for(rng, fam, xmax):
-    if fam in ("exp2", "exp2o"):
+    if fam == "exp2o":
+        # with an offset the slow decay must die out well inside the x range: at tau_2 = 0.4 .. 0.6 xmax and 1 % noise the decay and
+        # the constant are nearly collinear and the least-squares minimum can lie at tau_2 -> infinity (thorough tier, seed 3)
+        t1 = rng.uniform(0.05, 0.09) * xmax
+        return [t1, t1 * rng.uniform(2.5, 3.5)]
+    if fam == "exp2":
         t1 = rng.uniform(0.05, 0.12) * xmax
         return [t1, t1 * rng.uniform(3.0, 5.0)]
     if fam == "exp3o":
